@@ -170,3 +170,172 @@ Theorem calls_spec : forall e, calls e = spec_calls e.
 Proof.
   intros; unfold calls; rewrite ewrite_spec. cbn [ew_xf]. rewrite map_id. apply spec_calls_cut.
 Qed.
+
+(* ------------------------------------------------------------------ sample groups *)
+
+Theorem sgroup_spec : forall e, sgroup e = spec_group e.
+Proof. induction e; cbn; congruence. Qed.
+
+(* the defect re-derived: before the repair a wrapped entry could lose its sample group *)
+Theorem sgroup_before_fix_refuted :
+  exists e, sgroup_before_fix e <> spec_group e /\ sgroup e = spec_group e.
+Proof.
+  exists (WithDimsE (Plain [] [([79; 112], [70; 111; 111])]) []). split; [cbn; discriminate | reflexivity].
+Qed.
+
+(* ------------------------------------------------------------------ per-wrapper corollaries *)
+
+Lemma calls_boxed : forall e, calls (Boxed e) = calls e /\ sgroup (Boxed e) = sgroup e.
+Proof. intros; rewrite !calls_spec; split; reflexivity. Qed.
+
+Definition transparent (f : wentry -> wentry) :=
+  forall e, calls (f e) = calls e /\ sgroup (f e) = sgroup e.
+Lemma calls_containers :
+  transparent Boxed /\ transparent Root /\ transparent OptSomeE /\ transparent OptSomeI /\
+  (forall k, transparent (ContE k)) /\ (forall k, transparent (ContI k)).
+Proof. unfold transparent; repeat split; intros; rewrite ?calls_spec; reflexivity. Qed.
+
+Lemma seq_calls : forall a b, seq (calls a) (calls b) = cut (calls a ++ calls b).
+Proof.
+  intros. rewrite !calls_spec. rewrite <- (spec_calls_cut a) at 1. rewrite <- (spec_calls_cut b) at 1.
+  apply seq_cut.
+Qed.
+Lemma calls_merged : forall a b,
+  calls (Merged a b) = seq (calls a) (calls b) /\ calls (MergedRef a b) = seq (calls a) (calls b) /\
+  sgroup (Merged a b) = sgroup a ++ sgroup b /\ sgroup (MergedRef a b) = sgroup a ++ sgroup b.
+Proof.
+  intros. rewrite seq_calls. rewrite !calls_spec. repeat split; reflexivity.
+Qed.
+Lemma calls_with_dims : forall e d,
+  calls (WithDimsE e d) = map (i_dims d) (calls e) /\ calls (WithDimsI e d) = map (i_dims d) (calls e) /\
+  sgroup (WithDimsE e d) = sgroup e /\ sgroup (WithDimsI e d) = sgroup e.
+Proof. intros; rewrite !calls_spec; repeat split; reflexivity. Qed.
+Lemma calls_global_dims : forall e d deny,
+  calls (WithGDimsE e d deny) = map (i_gdims d deny) (calls e) /\ sgroup (WithGDimsE e d deny) = sgroup e.
+Proof. intros; rewrite !calls_spec; split; reflexivity. Qed.
+Lemma calls_force : forall e f,
+  calls (ForceE e f) = cut (map (i_force f) (calls e)) /\ calls (ForceI e f) = cut (map (i_force f) (calls e)) /\
+  sgroup (ForceE e f) = sgroup e /\ sgroup (ForceI e f) = sgroup e.
+Proof. intros; rewrite !calls_spec; repeat split; reflexivity. Qed.
+Lemma calls_none : calls Empty = [] /\ calls OptNoneE = [] /\ calls OptNoneI = [].
+Proof. repeat split. Qed.
+
+(* values: what the format records for a wrapped value *)
+Lemma value_wrappers : forall v,
+  (forall k, vwrite (ContV k v) VWTerm = vwrite v VWTerm) /\
+  vwrite (OptSomeV v) VWTerm = vwrite v VWTerm /\ vwrite OptNoneV VWTerm = VNone /\
+  (forall d, vwrite (WithDimsV v d) VWTerm = v_dims d (vwrite v VWTerm)) /\
+  (forall f, vwrite (ForceV v f) VWTerm = v_force f (vwrite v VWTerm)).
+Proof. intros; rewrite ?vwrite_term; repeat split; intros; rewrite ?vwrite_term; reflexivity. Qed.
+
+(* ------------------------------------------------------------------ nothing but dimensions and flags changes *)
+
+Lemma panicked_app : forall a b, panicked (a ++ b) = panicked a || panicked b.
+Proof. intros; apply existsb_app. Qed.
+Lemma panicked_map_same : forall f l, (forall i, is_panic (f i) = is_panic i) -> panicked (map f l) = panicked l.
+Proof. unfold panicked; induction l as [|i r IH]; intros H; cbn; auto. rewrite H, IH; auto. Qed.
+Lemma panicked_map_keeps : forall f l, keeps_panic f -> panicked (map f l) = false -> panicked l = false.
+Proof.
+  unfold panicked; induction l as [|i r IH]; intros K H; cbn in *; auto.
+  apply orb_false_iff in H as [H1 H2]. rewrite (IH K H2), orb_false_r.
+  destruct (is_panic i) eqn:E; auto. rewrite (K i E) in H1; discriminate.
+Qed.
+
+Lemma skel_i_dims : forall d i, skel (i_dims d i) = skel i.
+Proof. destruct i as [| |n c]; cbn; auto. destruct c; reflexivity. Qed.
+Lemma skel_i_gdims : forall d deny i, skel (i_gdims d deny i) = skel i.
+Proof. destruct i as [| |n c]; cbn; auto. destruct (mem n deny); auto. destruct c; reflexivity. Qed.
+Lemma skel_i_force : forall f i, is_panic (i_force f i) = false -> skel (i_force f i) = skel i.
+Proof.
+  destruct i as [| |n c]; cbn; auto. destruct c; cbn; auto.
+  destruct (try_merge fl (Some f)); cbn; [reflexivity | discriminate].
+Qed.
+Lemma map_skel_force : forall f l, panicked (map (i_force f) l) = false -> map skel (map (i_force f) l) = map skel l.
+Proof.
+  unfold panicked; induction l as [|i r IH]; cbn; auto. intros H.
+  apply orb_false_iff in H as [H1 H2]. rewrite skel_i_force, IH; auto.
+Qed.
+
+Lemma v_skel_dims : forall d c, v_skel (v_dims d c) = v_skel c.
+Proof. destruct c; reflexivity. Qed.
+(* a value whose recorded call is not a panic differs from its leaf only in dimensions and flags *)
+Lemma spec_v_skel : forall v, spec_v v <> VPanic -> v_skel (spec_v v) = v_skel (vleaf v).
+Proof.
+  induction v; cbn [spec_v vleaf]; intros H; auto.
+  - rewrite v_skel_dims. apply IHv. intros E; apply H; rewrite E; reflexivity.
+  - assert (spec_v v <> VPanic) as H' by (intros E; apply H; rewrite E; reflexivity).
+    rewrite <- (IHv H'). destruct (spec_v v); cbn in *; auto.
+    destruct (try_merge fl (Some f)); cbn; [reflexivity | congruence].
+  - rewrite v_skel_dims. apply IHv. intros E; apply H; rewrite E; reflexivity.
+Qed.
+Lemma s_item_skel : forall it, is_panic (s_item it) = false -> skel (s_item it) = skel (leaf_item it).
+Proof.
+  destruct it; cbn; auto. intros H. rewrite spec_v_skel; auto. intros E; rewrite E in H; discriminate.
+Qed.
+Lemma map_s_item_skel : forall s, panicked (map s_item s) = false ->
+  map skel (map s_item s) = map skel (map leaf_item s).
+Proof.
+  unfold panicked; induction s as [|it r IH]; cbn; auto. intros H.
+  apply orb_false_iff in H as [H1 H2]. rewrite s_item_skel, IH; auto.
+Qed.
+
+Theorem spec_skeleton : forall e, panicked (spec_calls e) = false ->
+  map skel (spec_calls e) = map skel (map leaf_item (leaves e)).
+Proof.
+  induction e; cbn [spec_calls leaves]; intros H; auto.
+  - rewrite panicked_cut in H. rewrite cut_no_panic by exact H. apply map_s_item_skel; exact H.
+  - rewrite panicked_cut in H. rewrite cut_no_panic by exact H.
+    rewrite panicked_app in H. apply orb_false_iff in H as [H1 H2].
+    rewrite !map_app, IHe1, IHe2; auto.
+  - rewrite panicked_cut in H. rewrite cut_no_panic by exact H.
+    rewrite panicked_app in H. apply orb_false_iff in H as [H1 H2].
+    rewrite !map_app, IHe1, IHe2; auto.
+  - rewrite panicked_map_same in H by apply i_dims_is_panic.
+    rewrite map_map. rewrite (map_ext _ skel) by apply skel_i_dims. auto.
+  - rewrite panicked_map_same in H by apply i_gdims_is_panic.
+    rewrite map_map. rewrite (map_ext _ skel) by apply skel_i_gdims. auto.
+  - rewrite panicked_cut in H. rewrite cut_no_panic by exact H.
+    rewrite map_skel_force by exact H. apply IHe. eapply panicked_map_keeps; [apply i_force_keeps | exact H].
+  - rewrite panicked_map_same in H by apply i_dims_is_panic.
+    rewrite map_map. rewrite (map_ext _ skel) by apply skel_i_dims. auto.
+  - rewrite panicked_cut in H. rewrite cut_no_panic by exact H.
+    rewrite map_skel_force by exact H. apply IHe. eapply panicked_map_keeps; [apply i_force_keeps | exact H].
+Qed.
+
+Theorem calls_skeleton : forall e, panicked (calls e) = false ->
+  map skel (calls e) = map skel (map leaf_item (leaves e)).
+Proof. intros e; rewrite calls_spec; apply spec_skeleton. Qed.
+
+(* ------------------------------------------------------------------ stream / format adapters *)
+
+Definition obs_eq (e1 e2 : wentry) := spec_calls e1 = spec_calls e2 /\ spec_group e1 = spec_group e2.
+
+Lemma i_gdims_nil : forall deny i, i_gdims [] deny i = i.
+Proof.
+  destruct i as [| |n c]; cbn; auto. destruct (mem n deny); auto.
+  destruct c; cbn; auto. rewrite app_nil_r; reflexivity.
+Qed.
+
+Lemma deliver_spec : forall s e1 e2, obs_eq e1 e2 ->
+  Forall2 (fun p q : N * wentry => fst p = fst q /\ obs_eq (snd p) (snd q)) (deliver s e1) (spec_deliver s e2).
+Proof.
+  induction s; intros e1 e2 [Hc Hg]; cbn [deliver spec_deliver].
+  - constructor; [split; [reflexivity | split; assumption] | constructor].
+  - apply IHs. split; cbn; congruence.
+  - destruct d as [|p d'].
+    + apply IHs. split; cbn; [|assumption].
+      rewrite (map_ext _ (fun i => i)) by apply i_gdims_nil. rewrite map_id; assumption.
+    + apply IHs. split; cbn; congruence.
+  - apply IHs. split; cbn; congruence.
+  - apply Forall2_app; [apply IHs1 | apply IHs2]; split; assumption.
+  - apply IHs. split; assumption.
+Qed.
+
+Theorem deliver_calls : forall s e,
+  map (fun p : N * wentry => (fst p, calls (snd p), sgroup (snd p))) (deliver s e) =
+  map (fun p : N * wentry => (fst p, calls (snd p), sgroup (snd p))) (spec_deliver s e).
+Proof.
+  intros s e. pose proof (deliver_spec s e e (conj eq_refl eq_refl)) as H.
+  induction H as [|p q l1 l2 [Hid [Hc Hg]] _ IH]; cbn; auto.
+  rewrite IH, !calls_spec, !sgroup_spec, Hid, Hc, Hg. reflexivity.
+Qed.
